@@ -1,0 +1,161 @@
+//go:build verif
+
+// Package verifhook holds instrumentation points used by the external verification harness.
+// This file is only compiled with the "verif" build tag.
+//
+// Environment (all optional):
+//
+//	VERIF_TRACE=<file>          append "<name>\n" for every point reached
+//	VERIF_CRASH_AT=<name>#<k>   exit(137) without running defers at the k-th hit of <name> (k >= 1)
+//	VERIF_CRASH_AT=<name>#<k>@<p>  for BeforeWrite points: write data[:p] to the path first, then exit(137);
+//	                            for AfterWrite points: truncate the already written path to p bytes, then exit(137)
+//	VERIF_DELAY=<name>[,<name>...]:<maxMicros>:<seed>  sleep a seeded pseudo-random 0..maxMicros at those points
+package verifhook
+
+import (
+	"fmt"
+	"os"
+	"strconv"
+	"strings"
+	"sync"
+	"time"
+)
+
+const Enabled = true
+
+// OnJoinRecv, OnPoint may be set by an in-process harness before any query runs.
+var OnJoinRecv func(side int, closed bool)
+var OnPoint func(name string)
+
+var (
+	mu         sync.Mutex
+	hits       = map[string]int{}
+	traceFile  *os.File
+	crashName  string
+	crashHit   int
+	crashTorn  = -1
+	delayNames = map[string]bool{}
+	delayMax   int64
+	delayState uint64
+	inited     bool
+)
+
+func initLocked() {
+	if inited {
+		return
+	}
+	inited = true
+	if path := os.Getenv("VERIF_TRACE"); path != "" {
+		f, err := os.OpenFile(path, os.O_CREATE|os.O_APPEND|os.O_WRONLY, 0o644)
+		if err == nil {
+			traceFile = f
+		}
+	}
+	if spec := os.Getenv("VERIF_CRASH_AT"); spec != "" {
+		rest := spec
+		if i := strings.LastIndex(rest, "@"); i != -1 {
+			if p, err := strconv.Atoi(rest[i+1:]); err == nil {
+				crashTorn = p
+			}
+			rest = rest[:i]
+		}
+		if i := strings.LastIndex(rest, "#"); i != -1 {
+			crashName = rest[:i]
+			crashHit, _ = strconv.Atoi(rest[i+1:])
+		} else {
+			crashName = rest
+			crashHit = 1
+		}
+	}
+	if spec := os.Getenv("VERIF_DELAY"); spec != "" {
+		parts := strings.Split(spec, ":")
+		if len(parts) == 3 {
+			for _, n := range strings.Split(parts[0], ",") {
+				delayNames[n] = true
+			}
+			delayMax, _ = strconv.ParseInt(parts[1], 10, 64)
+			seed, _ := strconv.ParseUint(parts[2], 10, 64)
+			delayState = seed*2862933555777941757 + 3037000493
+		}
+	}
+}
+
+func reach(name, detail string) (hit int, delay time.Duration) {
+	mu.Lock()
+	defer mu.Unlock()
+	initLocked()
+	hits[name]++
+	hit = hits[name]
+	if traceFile != nil {
+		fmt.Fprintf(traceFile, "%s%s\n", name, detail)
+	}
+	if delayMax > 0 && delayNames[name] {
+		delayState ^= delayState << 13
+		delayState ^= delayState >> 7
+		delayState ^= delayState << 17
+		delay = time.Duration(delayState%uint64(delayMax+1)) * time.Microsecond
+	}
+	return hit, delay
+}
+
+func Point(name string) {
+	hit, delay := reach(name, "")
+	if OnPoint != nil {
+		OnPoint(name)
+	}
+	if crashName == name && crashHit == hit && crashTorn < 0 {
+		os.Exit(137)
+	}
+	if delay > 0 {
+		time.Sleep(delay)
+	}
+}
+
+func BeforeWrite(name, path string, data []byte) {
+	hit, delay := reach(name, fmt.Sprintf("\tbefore_write\t%d\t%s", len(data), path))
+	if OnPoint != nil {
+		OnPoint(name)
+	}
+	if crashName == name && crashHit == hit {
+		if crashTorn >= 0 {
+			p := crashTorn
+			if p > len(data) {
+				p = len(data)
+			}
+			// Emulates a process killed p bytes into os.WriteFile (which truncates first).
+			_ = os.WriteFile(path, data[:p], 0o644)
+		}
+		os.Exit(137)
+	}
+	if delay > 0 {
+		time.Sleep(delay)
+	}
+}
+
+// AfterWrite marks the point just after the file at path has been written completely.
+// With a torn crash spec it emulates a process killed p bytes into writing that file.
+func AfterWrite(name, path string) {
+	size := int64(-1)
+	if st, err := os.Stat(path); err == nil {
+		size = st.Size()
+	}
+	hit, delay := reach(name, fmt.Sprintf("\tafter_write\t%d\t%s", size, path))
+	if OnPoint != nil {
+		OnPoint(name)
+	}
+	if crashName == name && crashHit == hit {
+		if crashTorn >= 0 && size >= 0 && int64(crashTorn) < size {
+			_ = os.Truncate(path, int64(crashTorn))
+		}
+		os.Exit(137)
+	}
+	if delay > 0 {
+		time.Sleep(delay)
+	}
+}
+
+func JoinRecv(side int, closed bool) {
+	if OnJoinRecv != nil {
+		OnJoinRecv(side, closed)
+	}
+}
